@@ -55,7 +55,7 @@ func (c *Ctx) remainderIdiom(P, rule, fnName string, rem, part int, totalParam, 
 			o.fail(c.A.Pos(r.Pos()), "result #%d is %s, not a subtraction from %s", rem, desc(vr, 5), totalParam)
 			continue
 		}
-		if p, isP := stripConv(sub.Call.Args[0]).(*ssa.Parameter); !isP || p.Name() != totalParam {
+		if p, isP := stripConv(sub.Call.Args[0]).(*ssa.Parameter); !isP || identName(p) != totalParam {
 			o.fail(c.A.Pos(r.Pos()), "the subtraction is from %s, not from %s", desc(sub.Call.Args[0], 5), totalParam)
 		}
 		if stripConv(sub.Call.Args[1]) != stripConv(vp) {
@@ -97,7 +97,7 @@ func (c *Ctx) splitLoop(P string) []Obligation {
 	var remains *ssa.Phi
 	for _, b := range fn.Blocks {
 		for _, ins := range b.Instrs {
-			if ph, ok := ins.(*ssa.Phi); ok && ph.Comment == "remains" {
+			if ph, ok := ins.(*ssa.Phi); ok && identName(ph) == "remains" {
 				remains = ph
 			}
 		}
